@@ -133,7 +133,7 @@ def cases(tier, seed):
         for tag, pl in placements:
             chops = placement_to_chops(pl)
             out.append({"cells": cells, "placement": tag, "chops": chops, "variants": "orders"})
-            if n >= 2 and (tag == "default" or tier == "thorough") and connected:
+            if n >= 2 and (tag == "default" or tag.startswith("move") or tier == "thorough") and connected:
                 for b in range(n):
                     out.append({"cells": cells, "placement": tag, "chops": chops, "variants": f"numbering:{b}"})
     # simplest first
